@@ -13,4 +13,5 @@ go build -o "$W/instr" ./cmd/instr || exit 2
 go build -tags verif -overlay "$W/ov/overlay.json" -o "$W/vcheck" ./cmd/vcheck || exit 2
 "$W/instr" -repo /repo -out "$W/ovp" -seam $V/harness/seamsrc -points || exit 2
 go build -tags verif -overlay "$W/ovp/overlay.json" -o "$W/vcheckp" ./cmd/vcheck || exit 2
+go build -race -o "$W/racepass" ./cmd/racepass || exit 2
 echo "setup ok"
